@@ -36,6 +36,15 @@ objs=[f*dot(grad(f),n)*v*ds]'''),
     corpus._c("c02_facetarea_cellvolume_tet", '''
 m=mesh("tetrahedron"); V=space(m,"P",1); v=TestFunction(V)
 objs=[FacetArea(m)*v*ds + CellVolume(m)*v*ds + avg(CellVolume(m))*avg(v)*dS + Circumradius(m)*v*ds]'''),
+    # mixed spaces on interior facets: offsets of the '-' side of every sub-element, for arguments and coefficients
+    corpus._c("c02_mixed_space_interior_facet", '''
+m=mesh("triangle"); W=FunctionSpace(m,basix.ufl.mixed_element([el("DP","triangle",2), el("DP","triangle",1)]))
+w=Coefficient(W); (u,p)=split(w); (ut,pt)=TrialFunctions(W); (v,q)=TestFunctions(W)
+objs=[(u('+')*p('-') + 2*u('-')*p('+'))*dS, ut('+')*q('-')*dS + pt('-')*v('-')*dS + u('-')*pt('+')*v('-')*dS]'''),
+    corpus._c("c02_mixed_vector_scalar_interior_facet_tet", '''
+m=mesh("tetrahedron"); W=FunctionSpace(m,basix.ufl.mixed_element([el("DP","tetrahedron",1,shape=(3,)), el("DP","tetrahedron",0), el("DP","tetrahedron",1)]))
+w=Coefficient(W); (u,p,r)=split(w); (v,q,t)=TestFunctions(W); n=FacetNormal(m)
+objs=[(dot(u('-'),n('+'))*q('+') + p('-')*t('-') + r('+')*dot(v('-'),n('-')) + r('-')*q('-'))*dS]'''),
     # quantities read straight from the vertex coordinates, per side of an interior facet, in 1D/2D/3D
     corpus._c("c02_vertex_geometry_sides_tri", '''
 m=mesh("triangle"); V=space(m,"DP",1); v=TestFunction(V); h=CellDiameter(m); r=Circumradius(m)
